@@ -62,6 +62,7 @@ def run(rep, tier):
         n = rep.call(arith, rep, prog, "C03.arith") or 0
         rep.floor("C03.arith", "arithmetic asserts in scope", n, 100)
         rep.call(validators.crop_f64, rep, prog, "C03.crop-validate")
+        rep.call(validators.validators_no_panic, rep, prog, "C03.validators-no-panic")
         rep.call(validators.crop_u32, rep, prog, "C03.crop-validate-u32")
         rep.call(validators.constructors_validate, rep, prog, "C03.invariants")
         # the dynamic images unwrap the typed view of a buffer their constructor accepted
